@@ -5,5 +5,5 @@ THEOREMS = []
 TRUSTED = []
 ASSUMPTIONS = []
 LEVEL_TEXT = 'Lean theorems: sliding-window exponentiation computes b^e in any monoid for every window size; REDC returns x·B^-n mod m below m; CRT recombination for even moduli; every mpz_powm path returns b^e mod |m| in range and well formed; exact powers. Differential run over odd/even/power-of-two moduli and all window widths.'
-LEVEL_NOTE = "The FFT branch of mpn_mulmod_2expp1_basecase (half sizes above 128 limbs, i.e. redc_n above 256 limbs: contract P1Spec assumed) and mpn_binvert internals rest on the correspondence run; mpz_powm_ui and the CRT index model are flag models tied through values and pins."
+LEVEL_NOTE = "The FFT branch of mpn_mulmod_2expp1_basecase (half sizes above 128 limbs, i.e. redc_n above 256 limbs: contract P1Spec assumed) and mpn_dc_bdiv_q inside mpn_binvert's base case (sizes >= DC_BDIV_Q_THRESHOLD) rest on the correspondence run (mpn_binvert itself is proved: mpn_binvert_correct); mpz_powm_ui and the CRT index model are flag models tied through values and pins."
 PLACEHOLDER = True
